@@ -13,3 +13,10 @@ pub mod watchers;
 
 pub use api::{AddressBook, AddressBookError};
 pub use builder::Builder;
+
+/// Verification hooks (only compiled with `--cfg p2panda_p2panda_verif`).
+#[cfg(p2panda_p2panda_verif)]
+#[doc(hidden)]
+pub mod verif {
+    pub use super::actor::ToAddressBookActor;
+}
